@@ -317,6 +317,10 @@ def check(ctx):
         d13 = [a.value for a in walk_no_nested(lv.node) if isinstance(a, ast.Assign) and norm(a.targets[0]) == rv.id]
         src13 = d13[-1] if len(d13) == 1 else None
     elementwise = isinstance(src13, ast.ListComp) and len(src13.generators) == 1 and norm(src13.generators[0].iter) == lv.params[0] and not src13.generators[0].ifs
+    if isinstance(src13, ast.Call) and dotted(src13.func) in ("list", "tuple") and len(src13.args) == 1:
+        inner = src13.args[0]
+        elementwise = (isinstance(inner, ast.Call) and dotted(inner.func) == "map" and len(inner.args) == 2 and norm(inner.args[1]) == lv.params[0]) or \
+            (isinstance(inner, ast.GeneratorExp) and len(inner.generators) == 1 and norm(inner.generators[0].iter) == lv.params[0] and not inner.generators[0].ifs)
     ctx.check(elementwise, "C01.R13", f"{lv.qualname}:one-per-argument", None,
               f"`return {short(rv, 50)}` is not the element-wise image of `{lv.params[0]}`: with a deduplicated / filtered result, `zip(literal_values(values), values)` in the deserialization visitor pairs keys with the wrong values - Literal[False, 0] rejects 0, Literal[1, True, 'high', 2] maps 'high' to True",
               lv, rets13[0], detail=f"[... for v in {lv.params[0]}]")
@@ -361,6 +365,7 @@ def generic_substitution_rule(ctx, rule):
 
 
 def mutants(mb):
+    mb.add_text("neg-literal-values-map", "apischema/utils.py", "    primitive_values = [v.value if isinstance(v, Enum) else v for v in values]\n", "    primitive_values = list(map(lambda v: v.value if isinstance(v, Enum) else v, values))\n", negative=True)
     mb.add_text("typed-dict-visited-by-origin", "apischema/visitor.py", "            return self.typed_dict(tp, resolve_type_hints(tp), required_keys)\n", "            return self.typed_dict(origin, resolve_type_hints(origin), required_keys)\n", "C01.R14", "typed_dict")
     mb.add_text("literal-values-deduplicated", "apischema/utils.py", "    return primitive_values\n", "    return list(dict.fromkeys(primitive_values))\n", "C01.R13", "one-per-argument")
     mb.add_text("generic-base-top-level-substitution", "apischema/typing.py", "            base_parameters = getattr(base, \"__parameters__\", ())\n            if base_parameters:\n                base = base[tuple(substitution.get(p, p) for p in base_parameters)]\n", "            if getattr(base, \"__parameters__\", ()):\n                base = get_origin(base)[tuple(substitution.get(a, a) for a in get_args(base))]\n", "C01.R12", "base-substitution")
